@@ -40,12 +40,12 @@ def deserialize_hml(ser: Slice, m: int) -> typing.Tuple[int, bitarray]:
         s = ser.load_bits(n)
     elif _type == 'long':
         l = m.bit_length()
-        n = ser.load_uint(l)
+        n = ser.load_uint(l) if l else 0  # n:(#<= 0) takes no bits
         s = ser.load_bits(n)
     else:  # same
         v = ser.load_bit()
         l = m.bit_length()
-        n = ser.load_uint(l)
+        n = ser.load_uint(l) if l else 0
         s = bitarray(str(v) * n)
     return n, s
 
